@@ -37,8 +37,9 @@ DARK = (10, 20, 30)
 LIGHT = (200, 210, 220, 128)
 CMAP = {'finder_dark': 'darkblue', 'data_light': (250, 250, 240), 'alignment_dark': '#336699', 'quiet_zone': None}
 MERGE_PARTS = ['AB', 'CD']
+LIST_ARG = ['ABC', '123', 'abc']
 SEQ_TEXT = 'ABCDEFGHIJKLMNOPQRSTUVWXYZ0123456789ABCDEFGHIJKLMNOPQRSTUVWXYZ'
-ARGS = {'MERGE_PARTS': MERGE_PARTS, 'PARTS': PARTS, 'KANJI': KANJI, 'BYTES': BYTES, 'DARK': DARK, 'LIGHT': LIGHT, 'CMAP': CMAP}
+ARGS = {'LIST_ARG': LIST_ARG, 'MERGE_PARTS': MERGE_PARTS, 'PARTS': PARTS, 'KANJI': KANJI, 'BYTES': BYTES, 'DARK': DARK, 'LIGHT': LIGHT, 'CMAP': CMAP}
 
 
 def canon_qr(q):
@@ -90,6 +91,37 @@ def _terminal(q, **kw):
     out = io.StringIO()
     q.terminal(out=out, **kw)
     return out.getvalue()
+
+
+class BrokenStream:
+    """a writable object whose write() fails after a few calls (a full disk, a closed socket)"""
+    def __init__(self, fail_after):
+        self.n, self.fail_after = 0, fail_after
+
+    def write(self, data):
+        self.n += 1
+        if self.n > self.fail_after:
+            raise OSError('stream broken')
+        return len(data)
+
+
+def _broken(kind, fail_after):
+    q = _small()
+    before = canon_qr(q)
+    try:
+        q.save(BrokenStream(fail_after), kind=kind)
+        res = 'written'
+    except OSError:
+        res = 'OSError'
+    return (res, canon_qr(q) == before, tuple(len(r) for r in q.matrix))
+
+
+SHARED = [None]
+
+
+def prologue_shared():
+    SHARED[0] = segno.make('Shared between threads', version=2, error='M', mask=3)
+    return canon_qr(SHARED[0])
 
 
 OPS = {
@@ -153,6 +185,17 @@ OPS = {
     'make_bool_true': lambda: segno.make(True),
     'fail_eci_utf16': lambda: segno.make('ab', encoding='utf-16', eci=True),
     'fail_eci_koi8': lambda: segno.make('ab', encoding='koi8-r', eci=True),
+    'broken_stream_tex': lambda: [_broken('tex', k) for k in (2, 5, 9)],
+    'broken_stream_svg_eps_pdf': lambda: [_broken(k, 0) for k in ('svg', 'eps', 'pdf', 'png', 'pbm', 'txt')] + [_broken('eps', 6), _broken('txt', 3), _broken('xpm', 7)],
+    'make_section_sign': lambda: segno.make('\xa7\xb0\xb1\xd7\xf7'),
+    'make_yen_pound': lambda: segno.make('\xa3 \xa5', micro=False),
+    'make_greek': lambda: segno.make('\u03b1\u03b2\u03b3'),
+    'make_list_args': lambda: (segno.make(LIST_ARG), list(LIST_ARG)),
+    'shared_svg': lambda: _save(SHARED[0], 'svg') if SHARED[0] else 'no-shared',
+    'shared_eps': lambda: _save(SHARED[0], 'eps') if SHARED[0] else 'no-shared',
+    'shared_png': lambda: _save(SHARED[0], 'png') if SHARED[0] else 'no-shared',
+    'shared_matrix': lambda: [canon_qr(SHARED[0]) for _ in range(40)] if SHARED[0] else 'no-shared',
+    'shared_iter': lambda: tuple(SHARED[0].matrix_iter(border=0)) if SHARED[0] else 'no-shared',
     'fail_overflow': lambda: segno.make('1' * 8000),
     'fail_colour': lambda: _save(_shared(), 'png', dark='nope'),
     'fail_mode': lambda: segno.make('abc', mode='numeric'),
